@@ -454,10 +454,15 @@ def replay_histories(ctx, histfile, subcmd, module="Trace", chunks=NCPU, limit=N
     seen = set()
     unreproduced = []
     nviol0 = len(ctx.violations)
+    skipped = 0
     for hist, clauses in bad:
         if hist in seen:
             continue
         seen.add(hist)
+        if len(ctx.violations) - nviol0 >= 10:
+            # ten reproduced violations settle the verdict; the other rejected histories are counted, not re-run
+            skipped += 1
+            continue
         if any(c in TOOL_CLAUSES for c in clauses):
             raise ToolError("tool-level rejection %s in history %s" % (clauses, hist))
         ok, cl = replay_one_history(ctx, hist, subcmd, module)
@@ -482,6 +487,8 @@ def replay_histories(ctx, histfile, subcmd, module="Trace", chunks=NCPU, limit=N
             json.dump({"history": hist, "subcmd": subcmd, "module": module, "rejected_events": getattr(ctx, "last_rejected", [])}, fo)
         ctx.violations.append((",".join(cl), path))
         log("VIOLATION property=%s replay=%s clause=%s" % (ctx.prop, path, ",".join(cl)))
+    if skipped:
+        ctx.notes.append("%d further rejected histories were not re-run individually (10 violations already reproduced)" % skipped)
     if unreproduced and len(ctx.violations) == nviol0 and not ctx.known:
         raise ToolError("none of the %d rejected schedules reproduced alone" % len(unreproduced))
     return len(lines)
